@@ -23,6 +23,8 @@ DECIDED_R6 = ('Round 6: blacklist applied to the name of the stored pair; the tw
 DECIDED = DECIDED + ' ' + DECIDED_R6
 DECIDED_R7 = ('Round 7: nothing can raise between the two stores of the status pair; no stored header value is already in wire form.')
 DECIDED = DECIDED + ' ' + DECIDED_R7
+DECIDED_R9 = ('Round 9: `setdefault` through a bound method picked into a local; the list branch as a statement (b).')
+DECIDED = DECIDED + ' ' + DECIDED_R9
 NOT_DECIDED = ('"decodes back to the original text": codec semantics of utf8/latin1 (assumed injective); header *names*; '
                'HeaderDict.update and list-valued setdefault are not single-value setters in the statement (reported as notes).')
 ASSUMPTIONS = ["s.encode('utf8').decode('latin1') is total and injective", 'str(x) of int/float/bool/None contains no control characters']
